@@ -455,7 +455,7 @@ func c04TextModelled(name string, data []byte) interface{} {
 func init() {
 	campaigns["C04"] = func(c *Ctx) {
 		eps := c04EntryPoints()
-		c.Rule = fmt.Sprintf("%d decode entry points found by reflection (package-level UnmarshalJSON/GobDecode; UnmarshalJSON, UnmarshalText, GobDecode, UnmarshalBinary of the 14 vocabulary structs and 12 leaf types). Inputs: empty, all 256 one-byte strings, 38 hand-picked JSON atoms and mistyped documents, nesting to depth 5k-200k of arrays, objects and strings-of-backslashes, 10^5-10^6-digit numbers and strings; every ordered pair of the vocabulary's 55 type names as neighbours in one decoded list; two equal members of one list each nesting its own kind 20-26 levels deep through each of 40 item-valued properties (16 type names: the comparison made while decoding must not double per level); 54 hostile scalars (padded signs, partial durations and instants, non-numbers) as string and as raw value under each of 16 typed terms; the repository mocks and harness-written documents with structure-aware mutations (truncation, value replaced by another kind, byte flip, duplicated/deleted chunk, array wrapping, non-UTF-8, brace swaps); valid gob streams of generated values with truncation, byte flips, length bombs, random bytes. Every call runs in a child process with a deadline; a panic, a dead or silent child, more than 2 s, or allocation beyond 64 MiB + 400 x input size is a failure; every returned value then goes through MarshalJSON, GobEncode, ItemsEqual(v,v), accessors, Format, Flatten, Recipients under recover. Correspondence: the three hand-written text unmarshalers against their Lean models with an explicit panic outcome, exhaustively on all strings of length <= 3 over {quote, backslash, a} plus random strings.", len(eps))
+		c.Rule = fmt.Sprintf("%d decode entry points found by reflection (package-level UnmarshalJSON/GobDecode; UnmarshalJSON, UnmarshalText, GobDecode, UnmarshalBinary of the 14 vocabulary structs and 12 leaf types). Inputs: empty, all 256 one-byte strings, 38 hand-picked JSON atoms and mistyped documents, nesting to depth 5k-200k of arrays, objects and strings-of-backslashes, 10^5-10^6-digit numbers and strings; every ordered pair of the vocabulary's 55 type names as neighbours in one decoded list; a text property given as a plain value and as a mistyped map at once; a short, a partial and a detailed copy of one value of every struct as neighbours in a list, in both orders; two equal members of one list each nesting its own kind 20-26 levels deep through each of 40 item-valued properties (16 type names: the comparison made while decoding must not double per level); 54 hostile scalars (padded signs, partial durations and instants, non-numbers) as string and as raw value under each of 16 typed terms; the repository mocks and harness-written documents with structure-aware mutations (truncation, value replaced by another kind, byte flip, duplicated/deleted chunk, array wrapping, non-UTF-8, brace swaps); valid gob streams of generated values with truncation, byte flips, length bombs, random bytes. Every call runs in a child process with a deadline; a panic, a dead or silent child, more than 2 s, or allocation beyond 64 MiB + 400 x input size is a failure; every returned value then goes through MarshalJSON, GobEncode, ItemsEqual(v,v), accessors, Format, Flatten, Recipients under recover. Correspondence: the three hand-written text unmarshalers against their Lean models with an explicit panic outcome, exhaustively on all strings of length <= 3 over {quote, backslash, a} plus random strings.", len(eps))
 		proc, err := c04Start()
 		if err != nil {
 			c.Fail("C04/harness", "cannot start the child: "+err.Error(), nil)
@@ -605,6 +605,67 @@ func init() {
 							what = fmt.Sprintf("UnmarshalJSON: two equal %s members of one list, nested %d deep through %q (%d bytes): %s", typ, d2, prop, len(data), dead)
 						}
 						c.Fail("C04/"+tag, what, map[string]interface{}{"ep": "UnmarshalJSON", "hex": hex.EncodeToString(data), "twin": []interface{}{typ, prop, pos, d1, d2}})
+					}
+				}
+			}
+		}
+		// 2b''. a text property given both ways at once, the map form mistyped; and a short copy next to a detailed
+		// copy of one value in a list (the decoder compares them, property by property, in both orders)
+		for _, term := range []string{"name", "summary", "content", "preferredUsername"} {
+			for _, plain := range []string{`"x"`, `{"en":"x"}`, `["x"]`, `null`, `1`} {
+				for _, mp := range []string{`null`, `"y"`, `["y"]`, `1`, `true`, `{}`, `{"en":null}`, `{"en":1}`, `{"":"y"}`, `[{"en":"y"}]`} {
+					for _, typ := range []string{"Note", "Person", "Create", "Link"} {
+						runCase(0, []byte(fmt.Sprintf(`{"type":%q,"id":"https://example.com/x",%q:%s,%q:%s}`, typ, term, plain, term+"Map", mp)), "text-and-map")
+						runCase(0, []byte(fmt.Sprintf(`{"type":%q,"id":"https://example.com/x",%q:%s,%q:%s}`, typ, term+"Map", mp, term, plain)), "text-and-map")
+					}
+				}
+			}
+			runCase(0, []byte(fmt.Sprintf(`{"type":"Note","source":{%q:"x",%q:null,"mediaType":"text/plain"}}`, "content", "contentMap")), "text-and-map")
+		}
+		{
+			stats := map[string]int{}
+			cfgFull := &GenCfg{MaxDepth: 1, Density: 100, Links: true, MultiLang: true, Zones: true}
+			for _, goType := range allGoTypes {
+				for rep := 0; rep < c.N(2, 6); rep++ {
+					full := cfgFull.genNode(c.R, goType, 1, false)
+					full["ptr"] = true
+					ff := full["f"].(T)
+					id := fmt.Sprintf("https://example.com/copy/%s/%d", goType, rep)
+					ff["ID"] = T{"s": id}
+					if _, ok := ff["Type"]; !ok {
+						ff["Type"] = T{"s": vocab[goType][0]}
+					}
+					stub := T{"t": goType, "ptr": true, "f": T{"ID": T{"s": id}, "Type": ff["Type"]}}
+					half := cloneTree(full).(T)
+					for k := range half["f"].(T) {
+						if k != "ID" && k != "Type" && c.R.Bool() {
+							delete(half["f"].(T), k)
+						}
+					}
+					// … and copies that lack exactly one property (the comparison reaches that property with one side unset)
+					if rep == 0 {
+						fdoc := string(c05Present(c.R, sortNLVs(full).(T), stats))
+						var keys []string
+						for k := range ff {
+							if k != "ID" && k != "Type" {
+								keys = append(keys, k)
+							}
+						}
+						sort.Strings(keys)
+						for _, k := range keys {
+							one := cloneTree(full).(T)
+							delete(one["f"].(T), k)
+							odoc := string(c05Present(c.R, sortNLVs(one).(T), stats))
+							runCase(0, []byte(`{"type":"OrderedCollection","id":"https://example.com/c","orderedItems":[`+odoc+`,`+fdoc+`]}`), "copies-but-one/"+goType)
+							runCase(0, []byte(`{"type":"OrderedCollection","id":"https://example.com/c","orderedItems":[`+fdoc+`,`+odoc+`]}`), "copies-but-one/"+goType)
+						}
+					}
+					fd, sd, hd := string(c05Present(c.R, sortNLVs(full).(T), stats)), string(c05Present(c.R, stub, stats)), string(c05Present(c.R, sortNLVs(half).(T), stats))
+					for _, pair := range [][2]string{{sd, fd}, {fd, sd}, {hd, fd}, {fd, hd}, {sd, hd}} {
+						for _, pos := range []string{"orderedItems", "tag", "attributedTo"} {
+							runCase(0, []byte(`{"type":"OrderedCollection","id":"https://example.com/c",`+fmt.Sprintf("%q", pos)+`:[`+pair[0]+`,`+pair[1]+`]}`), "copies/"+goType)
+						}
+						runCase(0, []byte(`[`+pair[0]+`,`+pair[1]+`]`), "copies/"+goType)
 					}
 				}
 			}
